@@ -177,6 +177,22 @@ impl Fields {
                         return Ok(None);
                     }
                 }
+                ListView(child) => {
+                    let fields = filter_field(child, filter)?;
+                    if let Some(fields) = fields {
+                        ListView(fields)
+                    } else {
+                        return Ok(None);
+                    }
+                }
+                LargeListView(child) => {
+                    let fields = filter_field(child, filter)?;
+                    if let Some(fields) = fields {
+                        LargeListView(fields)
+                    } else {
+                        return Ok(None);
+                    }
+                }
                 Map(child, ordered) => {
                     let fields = filter_field(child, filter)?;
                     if let Some(fields) = fields {
